@@ -423,7 +423,7 @@ def plan(ctx):
         for kind in kinds:
           cases.append({'sizes': sizes, 'B': bs, 'buckets': buckets, 'input': kind, 'hp': len(sizes) == 1,
                         'seed': ctx.seed})
-  (ctx.pmap('padded_cds', cases, chunk=400) if th else ctx.run('padded_cds', cases))
+  (ctx.pmap('padded_cds', cases, chunk=400) if th else ctx.run('padded_cds', cases, reverse_pass=True))
   ctx.run('padded_fd', [{'sizes': s, 'B': b, 'buckets': k, 'seed': ctx.seed}
                         for s in size_seqs(alpha if th else [0, 1, 2, 4, 5], 3) for b in (1, 2, 3, 4)
                         for k in ((1, 3) if b > 1 else (1,))])
